@@ -46,11 +46,15 @@ def parseReq (kind : String) (a b : String) : Option ClientReq :=
   | "wR" => some (.writeMultipleRegisters (natOf a) (genRegs b))
   | _ => none
 
+/-- `<n>` milliseconds or `<n>s` seconds -/
+def parseTimeout (s : String) : Nat :=
+  if s.endsWith "s" then natOf (stake s (s.length - 1)) * 1000 else natOf s
+
 def parseSubmit (op : SubmitOp) (rest : String) : Option Step :=
   match rest.splitOn "." with
   | [h, rid, kind, unit, timeout, a, b] =>
     (parseReq kind a b).map fun q =>
-      .submit op (natOf h) ⟨rid, styleOf op, natOf unit, natOf timeout, q⟩
+      .submit op (natOf h) ⟨rid, styleOf op, natOf unit, parseTimeout timeout, q⟩
   | _ => none
 
 def parseStep (s : String) : Option Step :=
@@ -195,17 +199,14 @@ def printGroups (seen : List Rid) : List (List LogEntry) → List String
 
 def parseCoins (tok : String) : List Bool := (sdrop tok 1).toList.map (· == '1')
 
-/-- result of a `cl` case together with the number of scheduler coins it consumed and the number
-    of senders that had to wait for queue capacity -/
-def runClInfo (tok : List String) : String × Nat × Nat :=
+/-- result of a `cl` case under the given scheduler coins, together with the number of coins it
+    consumed and the number of senders that had to wait for queue capacity -/
+def runClWith (tok : List String) (coins : List Bool) : String × Nat × Nat :=
   match tok with
-  | _ :: fr :: d :: q :: m :: script :: more =>
+  | _ :: fr :: d :: q :: m :: script :: _ =>
     match parseScript script with
       | none => ("parse-error", 0, 0)
       | some steps =>
-        let coins := match more with
-          | c :: _ => parseCoins c
-          | [] => []
         -- coins are padded with the default so that consumption can be counted
         let padded := coins ++ List.replicate 64 true
         let (cap, maxTo, dec) := (natOf (sdrop q 1), natOf (sdrop m 1), parseDecode d)
@@ -220,7 +221,77 @@ def runClInfo (tok : List String) : String × Nat × Nat :=
         (" | ".intercalate (printGroups [] (groups ++ [[]]) ++ [fin]), padded.length - left, waited)
   | _ => ("parse-error", 0, 0)
 
-/-- tokens of a `cl` case line → canonical output line -/
+/-- the coins of the optional 7th token `o<bits>` -/
+def runClInfo (tok : List String) : String × Nat × Nat :=
+  runClWith tok (match tok.drop 6 with
+    | c :: _ => parseCoins c
+    | [] => [])
+
+/-- tokens of a `cl` case line → canonical output line (default coins) -/
 def runCl (tok : List String) : String := (runClInfo tok).1
+
+/-- one-line description of a model state (for generators that steer scripts with the model) -/
+def stateLine {σ : Type} (s : State σ) (used : Nat) (fmt : String) : String :=
+  let b (x : Bool) : String := if x then "1" else "0"
+  let (phase, pos, tx, rid, dl) : String × String × String × String × String :=
+    match s.pos with
+    | .noPhase => ("none", "none", "-", "-", "-")
+    | .idle _ => ("session", "idle", "-", "-", "-")
+    | .inflight _ r tx dl => ("session", "inflight", toString tx, r.rid, toString dl)
+    | .waitEnabled => ("waitEnabled", "none", "-", "-", "-")
+    | .failFor dl _ => ("failFor", "none", "-", "-", toString dl)
+  s!"alive={b s.alive} phase={phase} pos={pos} tx={tx} rid={rid} deadline={dl} now={s.now} " ++
+    s!"nexttx={s.tx} queue={s.queue.length} enabled={b s.enabled} nto={s.nto} " ++
+    s!"handles={String.join (s.handles.map b)} coins={used} fmt={fmt}"
+
+/-- `clq <t|r> <dXYZ> q<cap> m<max> <script> [o<coins>]` → the model state after the script -/
+def runClState (tok : List String) : String :=
+  match tok with
+  | _ :: fr :: d :: q :: m :: script :: more =>
+    match parseScript script with
+      | none => "parse-error"
+      | some steps =>
+        let coins := match more with
+          | c :: _ => parseCoins c
+          | [] => []
+        let padded := coins ++ List.replicate 64 true
+        let (cap, maxTo, dec) := (natOf (sdrop q 1), natOf (sdrop m 1), parseDecode d)
+        if fr = "t" then
+          let s := runState mbap (State.init mbap cap maxTo dec padded) steps
+          stateLine s (padded.length - s.coins.length) "t"
+        else
+          let s := runState rtu (State.init rtu cap maxTo dec padded) steps
+          stateLine s (padded.length - s.coins.length) "r"
+  | _ => "parse-error"
+
+/-- all coin lists of length `n`; the all-`true` (default) list first -/
+def coinLists : Nat → List (List Bool)
+  | 0 => [[]]
+  | n + 1 => (coinLists n).flatMap fun l => [true :: l, false :: l]
+
+def dedupAux (seen : List String) : List String → List String
+  | [] => []
+  | x :: xs => if seen.contains x then dedupAux seen xs else x :: dedupAux (x :: seen) xs
+
+/-- first occurrences, in order -/
+def dedup (xs : List String) : List String := dedupAux [] xs
+
+/-- at most this many coins are enumerated -/
+def coinCap : Nat := 8
+
+def runClAllLoop (tok : List String) : Nat → Nat → List String
+  | 0, _ => ["..."]
+  | fuel + 1, len =>
+    let rs := (coinLists len).map (runClWith tok)
+    let used := rs.foldl (fun a r => max a r.2.1) 0
+    let outs := dedup (rs.map (·.1))
+    if used ≤ len then outs
+    else if len = coinCap then outs ++ ["..."]
+    else runClAllLoop tok fuel (min used coinCap)
+
+/-- the outputs of a `cl` case over ALL assignments of the scheduler coins it can consume
+    (de-duplicated, the default-coin output first); `"..."` is appended when some run wants more
+    than `coinCap` coins -/
+def runClAll (tok : List String) : List String := runClAllLoop tok (coinCap + 2) 0
 
 end Rodbus.Driver
